@@ -12,7 +12,7 @@ theorem destroyLast_counts (c : Cfg) {w : World} {x : Id} (h : CountsH w [x]) (h
     h1 (by simpa [Frame.ids] using hx)
   simp only
   split
-  · refine (CountsH.pushFrame (E := []) (.dropValue x) (CountsH.upd_same (CountsH.congr h2 ?_ ?_ ?_ ?_ ?_ ?_ ?_) x _ rfl rfl (fun hb => hb))
+  · refine (CountsH.pushFrame (E := []) (.dropValue x) (CountsH.upd_same (CountsH.congr h2 ?_ ?_ ?_ ?_ ?_ ?_ ?_) x _ rfl rfl)
       (by simpa [Frame.ids] using hx)).toCounts <;> rfl
   · refine (CountsH.pushFrame (E := []) (.dropValue x) (CountsH.congr h2 ?_ ?_ ?_ ?_ ?_ ?_ ?_)
       (by simpa [Frame.ids] using hx)).toCounts <;> rfl
@@ -30,7 +30,7 @@ theorem stepFrame_counts_dropCc (c : Cfg) (w : World) (x : Id) (rest : List Fram
       · have h1 := CountsH.pushFrame (E := []) (.dropCcAfterFin x w.finalizing) hp' (by simp [Frame.ids])
         have h2 : CountsH (World.upd { (World.push { w with stack := rest } (.dropCcAfterFin x w.finalizing)) with finalizing := true } x
             fun o => { o with finalized := true }) [] := by
-          refine CountsH.upd_same (CountsH.congr h1 ?_ ?_ ?_ ?_ ?_ ?_ ?_) x _ rfl rfl (fun hb => hb) <;> rfl
+          refine CountsH.upd_same (CountsH.congr h1 ?_ ?_ ?_ ?_ ?_ ?_ ?_) x _ rfl rfl <;> rfl
         exact (CountsH.pushFrame (E := []) (.callFin x) h2 (by simpa [Frame.ids] using hx)).toCounts
       · exact destroyLast_counts c hp' hx
     · exact (hp'.decr.addToList x hx).toCounts
@@ -54,16 +54,21 @@ theorem stepFrame_counts_afterDropValue (c : Cfg) (w : World) (x : Id) (oldDrop 
   simp only [stepFrame]
   split
   · counts_congr (CountsH.pushFrame (E := []) (.afterDropValue x oldDrop) hp' hids)
-  · split
-    · counts_congr ((hp'.dropMetadata x).freeBox x)
-    · counts_congr (hp'.freeBox x)
+  · rename_i hrc
+    have hrc0 : (w.heap x).rc = 0 := by
+      by_cases e : (w.heap x).rc = 0
+      · exact e
+      · exact absurd e hrc
+    split
+    · counts_congr ((hp'.dropMetadata x).freeBox_of_rc x (by simpa using hrc0))
+    · counts_congr (hp'.freeBox_of_rc x hrc0)
 
 theorem stepFrame_counts_dropValue (c : Cfg) (w : World) (x : Id) (rest : List Frame) (h : Counts w)
     (hs : w.stack = .dropValue x :: rest) : Counts (stepFrame c { w with stack := rest } (.dropValue x)) := by
   obtain ⟨hp, hids⟩ := h.pop hs
   have hp' : CountsH { w with stack := rest } [] := hp
   have hx : x < w.next := hids x (by simp [Frame.ids])
-  have h1 := hp'.upd_same x (fun o => { o with valLive := false }) rfl rfl (fun hb => hb)
+  have h1 := hp'.upd_same x (fun o => { o with valLive := false }) rfl rfl
   simp only [stepFrame]
   split
   · have h2 := CountsH.pushFrame (E := []) (.dropFields x false) h1 (by simpa [Frame.ids] using hx)
@@ -96,7 +101,7 @@ theorem stepFrame_counts_dropFields (c : Cfg) (w : World) (x : Id) (unw : Bool) 
   · rename_i y o' htf
     obtain ⟨hf, hrc, hbl⟩ := takeField_weak htf
     have h1 : CountsH (World.upd { w with stack := rest } x fun _ => o') [] :=
-      hp'.upd_same x (fun _ => o') hf hrc (fun hb => by rw [← hbl]; exact hb)
+      hp'.upd_same x (fun _ => o') hf hrc
     exact ((CountsH.pushFrame (E := []) (.dropFields x unw) h1 (by simpa [Frame.ids] using hx)).weakDrop _).toCounts
   · split
     · counts_congr hp'
@@ -200,7 +205,7 @@ theorem stepFrame_counts_cleanEnd (c : Cfg) (w : World) (m : Id) (byUs unw : Boo
   have hp' : CountsH { w with stack := rest } [m] := hp
   simp only [stepFrame]
   split
-  · have h0 := hp'.upd_same m (fun o => { o with borrowed := false }) rfl rfl (fun hb => hb)
+  · have h0 := hp'.upd_same m (fun o => { o with borrowed := false }) rfl rfl
     have h1 := CountsH.pushFrame (E := [m]) (.actionEnd none unw) (by simpa [Frame.holds] using h0) (by simp [Frame.ids])
     exact (CountsH.pushFrame (E := []) (.dropCc m) (by simpa [Frame.holds] using h1) (by simp [Frame.ids])).toCounts
   · have h1 := CountsH.pushFrame (E := [m]) (.actionEnd none unw) (by simpa [Frame.holds] using hp') (by simp [Frame.ids])
@@ -213,10 +218,11 @@ theorem startDealloc_counts (c : Cfg) {w : World} (N : List Id) (h : CountsH w [
     (by intro i hi; simp only [Frame.ids, List.mem_append] at hi; rcases hi with hi | hi <;> exact hN i hi)
   have h2 : CountsH { (w.push (.deallocDrop N N w.dropping)) with dropping := true } [] := by
     refine CountsH.congr h1 ?_ ?_ ?_ ?_ ?_ ?_ ?_ <;> rfl
+  have h3 := h2.updAll_same (fun o => { o with doomed := true }) (fun _ => rfl) (fun _ => rfl) (fun _ => rfl) N
   simp only
   split
-  · exact (h2.updAll_same (fun o => { o with dropped := true }) (fun _ => rfl) (fun _ => rfl) (fun _ => rfl) N).toCounts
-  · exact h2.toCounts
+  · exact (h3.updAll_same (fun o => { o with dropped := true }) (fun _ => rfl) (fun _ => rfl) (fun _ => rfl) N).toCounts
+  · exact h3.toCounts
 
 theorem stepFrame_counts_finalizePass (c : Cfg) (w : World) (N r : List Id) (hasFin oldFin : Bool) (rest : List Frame) (h : Counts w)
     (hs : w.stack = .finalizePass N r hasFin oldFin :: rest) :
@@ -235,7 +241,7 @@ theorem stepFrame_counts_finalizePass (c : Cfg) (w : World) (N r : List Id) (has
     simp only [stepFrame]
     split
     · have h1 := CountsH.pushFrame (E := []) (.finalizePass N r true oldFin) hp' (by simpa [Frame.ids] using hr)
-      have h2 := h1.upd_same x (fun o => { o with finalized := true }) rfl rfl (fun hb => hb)
+      have h2 := h1.upd_same x (fun o => { o with finalized := true }) rfl rfl
       exact (CountsH.pushFrame (E := []) (.callFin x) h2 (by simpa [Frame.ids] using hx)).toCounts
     · exact (CountsH.pushFrame (E := []) (.finalizePass N r hasFin oldFin) hp' (by simpa [Frame.ids] using hr)).toCounts
   | nil =>
@@ -271,14 +277,20 @@ theorem stepFrame_counts_deallocDrop (c : Cfg) (w : World) (N r : List Id) (oldD
     simp only [stepFrame]
     have h1 := CountsH.pushFrame (E := []) (.deallocDrop N r oldDrop) hp' (by simpa [Frame.ids] using hr)
     split
-    · have h2 := h1.upd_same x (fun o => { o with dropped := true }) rfl rfl (fun hb => hb)
+    · have h2 := h1.upd_same x (fun o => { o with dropped := true }) rfl rfl
       exact (CountsH.pushFrame (E := []) (.dropValue x) h2 (by simpa [Frame.ids] using hx)).toCounts
     · exact (CountsH.pushFrame (E := []) (.dropValue x) h1 (by simpa [Frame.ids] using hx)).toCounts
   | nil =>
     simp only [stepFrame]
     split
     · counts_congr (CountsH.pushFrame (E := []) (.deallocDrop N [] oldDrop) hp' hids)
-    · counts_congr (CountsH.freeAll c N hp')
+    · rename_i hany
+      have hz : ∀ x ∈ N, (w.heap x).rc = 0 := by
+        intro x hx
+        by_cases e : (w.heap x).rc = 0
+        · exact e
+        · exact absurd (List.any_eq_true.2 ⟨x, hx, by simpa using e⟩) hany
+      counts_congr (CountsH.freeAll c N hp' hz)
 
 theorem stepFrame_counts_newAlloc (c : Cfg) (w : World) (k : Nat) (sp : NewSpec) (rest : List Frame) (h : Counts w)
     (hs : w.stack = .newAlloc k sp :: rest) : Counts (stepFrame c { w with stack := rest } (.newAlloc k sp)) := by
@@ -321,7 +333,7 @@ theorem stepFrame_counts_newCyclicEnd (c : Cfg) (w : World) (k : Nat) (id : Id) 
       fun o => { o with wslots := o.wslots.set j (some id) }) id fun o => { o with valLive := true, rc := o.rc + 1 }) (.to id)) k id) [] := by
     intro j
     have h1 := hp'.updMeta id (fun m => { m with weak := m.weak + 1 }) (Or.inl hid)
-    have h2 := h1.upd_same id (fun o => { o with wslots := o.wslots.set j (some id) }) rfl rfl (fun hb => hb)
+    have h2 := h1.upd_same id (fun o => { o with wslots := o.wslots.set j (some id) }) rfl rfl
     exact ((h2.incrRcF id 1 (fun o => { o with valLive := true, rc := o.rc + 1 }) hid rfl rfl rfl).weakDrop (.to id)).putH k
   cases selfw with
   | none =>
@@ -433,7 +445,7 @@ theorem stepFrame_counts_regInsert (c : Cfg) (w : World) (owner : Id) (script k 
         omega
 
 theorem CountsH.fromT1 {w : World} {E : List Id} (h : CountsH w E) (hh : T1.Heap) : CountsH (RustCc.fromT1 w hh) E :=
-  h.noptr rfl rfl rfl rfl (fun _ => rfl) (fun _ => rfl) (fun _ => rfl) (fun _ hx => hx) (fun _ hx => hx)
+  h.noptr rfl rfl rfl rfl (fun _ => rfl) (fun _ => rfl) (fun _ hx => hx) (fun _ hx => hx)
 
 theorem toT1_edges_sub (w : World) (x y : Id) (hy : y ∈ (toT1 w x).edges) : y ∈ fieldsOf (w.heap x) := by
   unfold toT1 at hy
@@ -471,7 +483,10 @@ theorem stepFrame_counts_collectPass (c : Cfg) (w : World) (rest : List Frame) (
       · refine startDealloc_counts c s.ts.nonroot (CountsH.congr h2 ?_ ?_ ?_ ?_ ?_ ?_ ?_) hb <;> rfl
 
 
-theorem unwindFrame_counts (c : Cfg) (w : World) (f : Frame) (rest : List Frame) (h : Counts w) (hs : w.stack = f :: rest) :
+/-- `hcyc`: the box under construction in `new_cyclic` has count 0 (part of the machine invariant `Inv`): the
+`PanicGuard` releases it without looking at the count. -/
+theorem unwindFrame_counts (c : Cfg) (w : World) (f : Frame) (rest : List Frame) (h : Counts w) (hs : w.stack = f :: rest)
+    (hcyc : ∀ k id sp sw, f = .newCyclicEnd k id sp sw → (w.heap id).rc = 0) :
     Counts (unwindFrame c { w with stack := rest } f) := by
   obtain ⟨hp, hids⟩ := h.pop hs
   have h0 : CountsH { w with stack := rest } [] := hp.forget (by simp)
@@ -479,7 +494,7 @@ theorem unwindFrame_counts (c : Cfg) (w : World) (f : Frame) (rest : List Frame)
   cases f with
   | dropValue x =>
     simp only [unwindFrame]
-    exact (h0.upd_same x id rfl rfl (fun hb => hb)).toCounts
+    exact (h0.upd_same x id rfl rfl).toCounts
   | dropFields x unw =>
     cases unw <;> simp only [unwindFrame]
     · counts_congr (CountsH.pushFrame (E := []) (.dropFields x true) h0 hids)
@@ -505,7 +520,8 @@ theorem unwindFrame_counts (c : Cfg) (w : World) (f : Frame) (rest : List Frame)
     counts_congr (h0.updAll_same (fun o => { o with mark := .non, dropped := o.dropped || c.weak }) (fun _ => rfl) (fun _ => rfl) (fun _ => rfl) N)
   | newCyclicEnd k id sp selfw =>
     simp only [unwindFrame]
-    exact (((h0.dropMetadata id).freeBox id).weakDrop _).toCounts
+    have hrc0 := hcyc k id sp selfw rfl
+    exact (((h0.dropMetadata id).freeBox_of_rc id (by simpa using hrc0)).weakDrop _).toCounts
   | regInsert owner script k cap =>
     cases cap with
     | none => simp only [unwindFrame]; exact hk
